@@ -3,6 +3,7 @@ package list
 import (
 	"bytes"
 	"encoding/binary"
+	"math"
 
 	"github.com/diiyw/nodis/ds"
 )
@@ -222,7 +223,12 @@ func (l *LinkedList) LRem(count int64, value []byte) int64 {
 	if count > 0 {
 		removed = l.lRem(count, value)
 	} else if count < 0 {
-		removed = l.lRevRem(-count, value)
+		if count == math.MinInt64 {
+			// -count overflows; more occurrences than that cannot exist: remove them all
+			removed = l.lRemAll(value)
+		} else {
+			removed = l.lRevRem(-count, value)
+		}
 	} else {
 		removed = l.lRemAll(value)
 	}
